@@ -245,6 +245,8 @@ def check_mutant(case):
             donor = ml.read_text(os.path.join(REPO, case["donor"])) if case.get("donor") else ""
         except OSError:
             raise Reject()
+        if "cut" in case:
+            text = ml.cut_at_token(text, case["cut"])
         text = ml.apply_ops(text, case["ops"], State.keywords, donor, MAX_LEN * 2)
     elif "text" in case:
         text = case["text"]
@@ -298,7 +300,9 @@ def mutant_strategy(groups):
     mutated = st.fixed_dictionaries({"seed": seed, "donor": st.sampled_from(files), "ops": ml.ops_strategy(),
                                      "mode": st.integers(0, 10 ** 6)})
     noise = st.fixed_dictionaries({"ops": ml.ops_strategy(), "mode": st.integers(0, 10 ** 6)})
-    return st.one_of(mutated, mutated, mutated, mutated, mutated, mutated, mutated, mutated, mutated, noise)
+    # an unmodified corpus file cut after its k-th token (k uniform over the whole file)
+    prefix = st.fixed_dictionaries({"seed": seed, "cut": st.integers(0, 4000), "ops": st.just([]), "mode": st.integers(0, 10 ** 6)})
+    return st.one_of(*([mutated] * 6 + [prefix] * 3 + [noise]))
 
 
 class LockedUnit(Unit):
